@@ -66,6 +66,7 @@ type Config struct {
 	PCTDepth      int      // 0: drawn from Seed (1..3)
 	StepCap       int      // 0: 20000
 	AccessPreempt float64  // probability that an eligible shared-variable access is a preemption point
+	ClockJump     float64  // probability that an observation of the clock (time.Now/Since) finds it jumped ahead by 1 ms .. 100 s
 	AccessStall   float64  // probability that, right after an access to a variable another task has touched, the task is put to sleep for a drawn number of steps (race-directed scheduling: lets the other tasks run on without acquiring anything this task releases later)
 	KeepEvents    bool     // keep the decoded event list in the result
 	Watchdog      time.Duration
@@ -175,7 +176,8 @@ type Sim struct {
 	end         string
 	aborting    bool
 	strategy    int
-	consecutive int // decisions in a row that went to the same task
+	consecutive int           // decisions in a row that went to the same task
+	now         time.Duration // simulated time beyond the event counter (sleeps and jumps)
 	// strategy state
 	pctChange []int
 	pctLow    int
@@ -672,9 +674,13 @@ func Gosched() {
 // Sleep stands in for time.Sleep: the system has no clock semantics, so a
 // sleep is a scheduling point of unknown length at which the caller steps aside.
 func Sleep(d time.Duration) {
-	if S == nil {
+	s := S
+	if s == nil {
 		time.Sleep(d)
 		return
+	}
+	if d > 0 {
+		s.now += d
 	}
 	Gosched()
 }
@@ -746,8 +752,14 @@ func (r *Result) String() string {
 	return fmt.Sprintf("end=%s steps=%d switches=%d trace=%016x blocked=[%s]", r.End, r.Steps, r.Switches, r.TraceID, strings.Join(r.Blocked(), "; "))
 }
 
-// Now replaces time.Now: the system under test has no clock semantics, so time
-// is a deterministic function of the global event sequence number.
+// Now replaces time.Now.  The system under test has no clock semantics of its
+// own, so the simulator owns the clock: it advances with the event sequence
+// number (1 microsecond per event), by the duration of every Sleep, and - the
+// fault - by a drawn jump of 1 ms .. 100 s at a drawn fraction of the
+// observations: a goroutine may be descheduled, or the whole process paused, for
+// any length of time between two instructions, and code with time-outs must
+// tolerate that.  The jump is only drawn when the clock is observed, so programs
+// that never look at the time pay nothing and their tapes are unchanged.
 func Now() time.Time {
 	s := S
 	if s == nil {
@@ -755,7 +767,23 @@ func Now() time.Time {
 		// clock, which would make a run and its replay differ
 		return time.Unix(1700000000, 0)
 	}
-	return time.Unix(1700000000, s.seq*1000)
+	if s.cfg.ClockJump > 0 && !s.aborting {
+		k := s.draw(7, func() int {
+			if s.rng.float() < s.cfg.ClockJump {
+				return 1 + int(s.rng.next()%6)
+			}
+			return 0
+		})
+		if k > 0 {
+			s.probes["clock_jumps"]++
+			d := time.Millisecond
+			for i := 1; i < k; i++ {
+				d *= 10
+			}
+			s.now += d
+		}
+	}
+	return time.Unix(1700000000, 0).Add(s.now + time.Duration(s.seq)*time.Microsecond)
 }
 
 // Since replaces time.Since.
